@@ -848,10 +848,55 @@ func KnownNonNilAt(fn *ssa.Function, site ssa.Instruction, v ssa.Value) bool {
 	return len(ne) > 0 && GuardedBy(fn, site, ne)
 }
 
+// unspill: in a function with defers a `return x` is compiled to `*result = x; rundefers; t = *result; return t`;
+// for the load t used by the return, unspill gives x (the last store to the cell in the return's own block).
+func unspill(site ssa.Instruction, v ssa.Value) ssa.Value {
+	ld, ok := v.(*ssa.UnOp)
+	if !ok || ld.Op != token.MUL || site == nil || ld.Block() != site.Block() {
+		return v
+	}
+	cell, ok := ld.X.(*ssa.Alloc)
+	if !ok {
+		return v
+	}
+	var last ssa.Value
+	for _, in := range ld.Block().Instrs {
+		if in == ssa.Instruction(ld) {
+			break
+		}
+		if st, isSt := in.(*ssa.Store); isSt && st.Addr == ssa.Value(cell) {
+			last = st.Val
+		}
+	}
+	if last != nil {
+		return last
+	}
+	return v
+}
+
+// KnownNilAt: every path to site passes an edge on which v was tested to be nil.
+func KnownNilAt(fn *ssa.Function, site ssa.Instruction, v ssa.Value) bool {
+	v = unspill(site, v)
+	if _, isConst := v.(*ssa.Const); isConst {
+		return false
+	}
+	switch v.Type().Underlying().(type) {
+	case *types.Interface, *types.Pointer, *types.Map, *types.Slice, *types.Chan, *types.Signature:
+	default:
+		return false
+	}
+	eq, _ := NilEdges(fn, func(x ssa.Value) bool { return x == v })
+	return len(eq) > 0 && GuardedBy(fn, site, eq)
+}
+
 // OriginsAt is Origins(v) for a use at site, without the nil constants when v
 // is known to be non-nil there (the value came back from a helper that answers
 // nil on its other paths, and the caller tested it).
 func OriginsAt(fn *ssa.Function, site ssa.Instruction, v ssa.Value) []ssa.Value {
+	if KnownNilAt(fn, site, v) {
+		// `if err == nil { return err }`: the value used here is nil whatever it came from
+		return []ssa.Value{ssa.NewConst(nil, v.Type())}
+	}
 	os := Origins(v)
 	if !KnownNonNilAt(fn, site, v) {
 		return os
